@@ -1,6 +1,7 @@
 """C08 - moving window: symmetric two-sided scores and peak-of-run detections."""
 import numpy as np
 
+from vf import history as H
 from vf import instrument as I
 from vf.core import CaseTimeout, digest, time_limit
 from vf.gen import gen_data
@@ -55,7 +56,8 @@ def make_recipe(rng, tier):
         X = np.round(2 * X)
     elif rng.random() < 0.2:
         X = X * float(rng.choice([1e-3, 1e-5, 1e-7]))  # the same signal in a small unit of measurement
-    return {"det": spec, "X": X, "data_kind": kind, "int_dtype": int_dtype}
+    return {"det": spec, "X": X, "data_kind": kind, "int_dtype": int_dtype, "history": H.pick(rng),
+            "hseed": int(rng.integers(2 ** 31)), "frame": "df" if rng.random() < 0.5 else None}
 
 
 def fresh_score(spec_cs, X):
@@ -99,9 +101,11 @@ def exec_case(ctx, r):
     I.drain()
     try:
         with time_limit(60):
-            det = build(spec).fit(X)
-            scores = np.asarray(det.transform_scores(X), dtype=float).ravel()
-            y = det.predict(X)
+            # the judged calls come after a history (vf/history.py); Xarg holds exactly X's values
+            det, Xarg = H.prepare(build(spec), X, r.get("history"), r.get("hseed", 0), 2 * b, r.get("frame"))
+            scores = np.asarray(det.transform_scores(Xarg), dtype=float).ravel()
+            y = det.predict(Xarg)
+            ctx.stat(f"history[{r.get('history')}]")
     except CaseTimeout:
         ctx.stat("case_timeouts")
         return
@@ -194,7 +198,7 @@ def exec_case(ctx, r):
             t = int(np.flatnonzero(np.abs(sr - mirrored) > rtol)[0])
             ctx.violation(sub, "reversal-scores", f"{label}: reversed series scores {sr[t]} at t={t} but "
                           f"the original scores {scores[n - t]} at n-t={n - t}", r)
-        elif kw["threshold_scale"] is not None:
+        elif kw["threshold_scale"] is not None and r.get("history") != "fit_other":
             # discrete outputs only where every decision margin exceeds the rounding width
             margin_ok = np.all(np.abs(scores[ts] - thr) > 10 * rtol)
             for a, e in kept:
